@@ -237,6 +237,7 @@ fn random_schedule(rng: &mut Rng, cap: usize, len: usize, bounded: bool) -> Vec<
 
 fn case(st: &mut Stream, cap: usize, src: &[i32], ops: &[u8], kind: &str) {
     let l = line(cap, src, ops);
+    mark(0, &l);
     let obs = run_case(cap, src, ops);
     let dom = in_domain(cap, ops);
     let upto = domain_prefix(cap, ops);
